@@ -172,7 +172,11 @@ pub fn run_c08(args: &Args) -> i32 {
         let mut classes: BTreeSet<(bool, usize)> = BTreeSet::new();
         let mut check = |chunks: &[usize], pend: u64, out_cap: usize, evals: &mut u64| {
             *evals += 1;
-            let r = sniff_once(stream, chunks, pend, out_cap);
+            let r = {
+                let (nm, st, ch) = (name.clone(), stream.clone(), chunks.to_vec());
+                let _g = crate::evidence::watchdog::enter(move || json!({"engine":"iomc-c08","stream":nm,"bytes":st,"chunks":ch,"pendings":pend,"out_cap":out_cap}));
+                sniff_once(stream, chunks, pend, out_cap)
+            };
             let bad = match &r {
                 Err(e) => Some(format!("error: {e}")),
                 Ok((h2, back)) => {
@@ -731,7 +735,13 @@ pub fn run_c18(args: &Args) -> i32 {
                             continue;
                         }
                         n += 1;
-                        match run_sequence(ad, &seq, vectored) {
+                        let res = {
+                            let (an, sq, full) = (ad.name, seq.clone(), alpha.len() > 50);
+                            let al = alpha.clone();
+                            let _g = crate::evidence::watchdog::enter(move || json!({"engine":"iomc-c18","adapter":an,"sequence":sq.iter().map(|s| format!("{:?}", s)).collect::<Vec<_>>(),"sequence_indices":sq.iter().map(|s| al.iter().position(|a| a == s).unwrap_or(0)).collect::<Vec<_>>(),"full_alphabet":full,"vectored":vectored}));
+                            run_sequence(ad, &seq, vectored)
+                        };
+                        match res {
                             Ok(c) => {
                                 classes.insert(c);
                             }
